@@ -681,7 +681,7 @@ BoCheck(t, ins, me, pendsub) ==
   \E i \in Readable(me, x) :
     /\ SetMe(t, ReadMsg(me, x, i, EffAcq(ins.ord)))
     /\ ash' = [ash EXCEPT ![x].ld[t] = Clk(me, t)]
-    /\ IF mo[x][i].val # 0
+    /\ IF AwaitOk(ins, mo[x][i].val)              \* ready: non-zero, or (ins.v # 0) equal to ins.v
        THEN /\ Ret(t, mo[x][i].val * 100 + np) /\ Adv(t)
             /\ sub' = [sub EXCEPT ![t] = ""]
             /\ ob' = [ob EXCEPT !.bon[t].polls = 0]
